@@ -19,6 +19,10 @@ AGGR = {
     "allread": dict(profile="uniform", gap=0, dir="r"),
     # continuous single-direction streams that never leave a gap in read/write availability at the multiplexer:
     # one port streams inside one row, a second one hops rows in another bank (keeps the command chooser busy)
+    # streams with a one-cycle bubble after every access: read/write availability drops for a single cycle again and again, so the
+    # direction FSM starts (and must finish) a turn-around while the stream is still running
+    "rbubble": dict(profile="samerow", gap=1, dir="r", bank=0, rank=0),
+    "wbubble": dict(profile="samerow", gap=1, dir="w", bank=0, rank=0),
     "wstream": [dict(profile="samerow", gap=0, dir="w", bank=0, rank=0), dict(profile="samebank_altrow", gap=0, dir="w", bank=3, rank=0)],
     "rstream": [dict(profile="samerow", gap=0, dir="r", bank=0, rank=0), dict(profile="samebank_altrow", gap=0, dir="r", bank=3, rank=0)],
 }
@@ -38,7 +42,8 @@ def scenarios(tier, seed):
                 ("DDR4", "samebank", "other_r", 3), ("DDR2", "allread", "same_w", 2),
                 ("DDR3_half", "allwrite", "other_r", 3), ("DDR3_half", "allread", "other_w", 3),
                 ("DDR3_half", "wstream", "other_r", 3), ("DDR3_half", "rstream", "other_w", 3), ("SDR", "wstream", "other_r", 3),
-                ("SDR", "altrow", "other_r", 2), ("DDR3", "altrow", "other_w", 3), ("DDR", "rstream", "other_w", 3)]
+                ("SDR", "altrow", "other_r", 2), ("DDR3", "altrow", "other_w", 3), ("DDR", "rstream", "other_w", 3),
+                ("SDR", "rbubble", "other_w", 2), ("DDR3", "wbubble", "other_r", 2), ("DDR3_half", "rbubble", "other_w", 2)]
         ncmd = 6000
     else:
         plan = []
@@ -46,7 +51,7 @@ def scenarios(tier, seed):
         for b in ["SDR", "SDR166", "DDR", "LPDDR", "DDR2", "DDR3", "DDR3_200", "DDR3_half", "DDR4"]:
             for a in AGGR:
                 for v in VICTIM:
-                    if (i % 3) == 0 or (a in ("wstream", "rstream", "altrow") and v.startswith("other")):
+                    if (i % 3) == 0 or (a in ("wstream", "rstream", "altrow", "rbubble", "wbubble") and v.startswith("other")):
                         plan.append((b, a, v, 2 + (i % 4)))
                     i += 1
         ncmd = 9000
